@@ -149,7 +149,7 @@ def load_many(lit: LineIterator) -> Iterator[dict]:
     try:
         while True:
             yield load_one(lit)
-    except (StopIteration, LoadError):
+    except LoadError:
         return
 
 
